@@ -188,7 +188,7 @@ def tlc(spec_dir, module, cfg, workers=None, simulate=None, depth=None, dump=Non
         extra=(), deadlock=True, seed=None, coverage=False, xmx='12g'):
     """run TLC on spec_dir/module.tla with spec_dir/cfg.  Returns TlcResult."""
     md = _metadir(module)
-    cmd = ['java', '-XX:+UseParallelGC', '-Xmx' + xmx] + list(jvm) + ['-cp', TLA_CP, 'tlc2.TLC', '-metadir', md,
+    cmd = ['java', '-XX:+UseParallelGC', '-Xss256m', '-Xmx' + xmx] + list(jvm) + ['-cp', TLA_CP, 'tlc2.TLC', '-metadir', md,
            '-workers', str(workers or min(NCPU, 16)), '-config', cfg, '-noGenerateSpecTE']
     if not deadlock:
         cmd += ['-deadlock']
@@ -377,7 +377,7 @@ def validate_trace_file(spec_dir, module, cfg, trace_file, timeout=900, xmx='8g'
         raise HarnessFailure('trace validation timed out on %s' % trace_file)
     accepted = (r.violation == 'NotAccepted')
     if not accepted and ('TLC threw an unexpected exception' in r.out or 'Error: Evaluating' in r.out or 'was not in the domain' in r.out
-                         or 'Attempted to' in r.out or 'is either undefined' in r.out):
+                         or 'Attempted to' in r.out or 'is either undefined' in r.out or 'StackOverflowError' in r.out or 'OutOfMemoryError' in r.out):
         # an evaluation error of the trace spec is a model/harness failure, never a rejection
         raise HarnessFailure('TLC evaluation error while validating %s:\n%s' % (trace_file, r.out[-2500:]))
     if not accepted and r.violation is not None:
